@@ -111,9 +111,13 @@ pub fn mutate(rng: &mut Rng, v: &Value) -> Value {
         Value::Object(o) if !o.is_empty() && rng.chance(3, 4) => {
             let mut es: Vec<(String, Value)> = o.entries().iter().map(|e| (e.key.to_string(), e.value.clone())).collect();
             let i = rng.below(es.len() as u64) as usize;
-            match rng.below(5) {
+            match rng.below(7) {
                 0 => { es.remove(i); }
                 1 => { es[i].0.push('x'); }
+                // same length, same long prefix, different tail / different middle (keys longer than any
+                // inline or abbreviated-comparison width)
+                5 => { let pre: String = "0123456789abcdef-shared-prefix/".chars().cycle().take(16 + rng.below(40) as usize).collect(); es[i].0 = format!("{}{}", pre, rng.pick(&["a", "b", "ab", "ba"])); }
+                6 => { let mut cs: Vec<char> = es[i].0.chars().collect(); if cs.is_empty() { cs.push('q'); } else { let j = if rng.chance(1, 2) { cs.len() - 1 } else { rng.below(cs.len() as u64) as usize }; cs[j] = if cs[j] == 'y' { 'z' } else { 'y' }; } es[i].0 = cs.into_iter().collect(); }
                 2 => { if es.len() > 1 { let j = rng.below(es.len() as u64) as usize; es.swap(i, j); } }
                 3 => { let e = es[i].clone(); es.push(e); }
                 _ => { es[i].1 = mutate(rng, &es[i].1); }
@@ -123,7 +127,16 @@ pub fn mutate(rng: &mut Rng, v: &Value) -> Value {
             Value::Object(n)
         }
         Value::Number(n) => { let mut s = n.as_str().to_string(); s.push('0'); if !s.contains('.') && !s.contains('e') && !s.contains('E') { s = format!("{}.5", n.as_str()); } Value::Number(json_syntax::NumberBuf::new(s.clone().into_bytes().into()).unwrap_or_else(|_| 7u8.into())) }
-        Value::String(s) => { let mut t = s.to_string(); if rng.chance(1, 2) { t.push('a'); } else { t.insert(0, 'é'); } Value::String(t.as_str().into()) }
+        Value::String(s) => {
+            let mut t = s.to_string();
+            match rng.below(4) {
+                0 => t.push('a'),
+                1 => t.insert(0, 'é'),
+                2 => { let pre: String = "0123456789abcdef-shared-prefix/".chars().cycle().take(16 + rng.below(40) as usize).collect(); t = format!("{}{}", pre, rng.pick(&["a", "b"])); }
+                _ => { let mut cs: Vec<char> = t.chars().collect(); if cs.is_empty() { cs.push('q'); } else { let j = cs.len() - 1; cs[j] = if cs[j] == 'y' { 'z' } else { 'y' }; } t = cs.into_iter().collect(); }
+            }
+            Value::String(t.as_str().into())
+        }
         Value::Boolean(b) => Value::Boolean(!b),
         _ => crate::print::gen_value(rng, 0, 1),
     }
@@ -132,8 +145,12 @@ pub fn mutate(rng: &mut Rng, v: &Value) -> Value {
 pub fn gen(out: &mut Out, thorough: bool) {
     let mut l = |s: String, out: &mut Out| crate::exec_line(&s, out);
     // all pairs and triples of a fixed pool of small values (every variant, prefixes, near strings)
-    let pool = ["n", "f", "t", "#30;", "#31;", "#31.30;", "#2d.31;", "s;", "s61;", "s61.61;", "s62;", "se9;", "s1f600;", "[]", "[n]", "[n,n]", "[t]", "[[]]", "{}", "{k61;n}", "{k61;t}", "{k61;nk61;n}", "{k62;n}", "{k;n}", "{k61;[]}"];
-    for a in pool { for b in pool { l(format!("ord cmp {} {}", a, b), out); } }
+    let lk = |tail: &str| format!("{{k{}.{};n}}", cps_inner("0123456789abcdef-long-key"), cps_inner(tail));
+    let ls = |tail: &str| format!("s{}.{};", cps_inner("0123456789abcdef-long-text"), cps_inner(tail));
+    let long: Vec<String> = vec![lk("a"), lk("b"), lk("aa"), ls("a"), ls("b"), format!("#{};", cps_inner("12345678901234567890123451")), format!("#{};", cps_inner("12345678901234567890123452"))];
+    let mut pool: Vec<&str> = vec!["n", "f", "t", "#30;", "#31;", "#31.30;", "#2d.31;", "s;", "s61;", "s61.61;", "s62;", "se9;", "s1f600;", "[]", "[n]", "[n,n]", "[t]", "[[]]", "{}", "{k61;n}", "{k61;t}", "{k61;nk61;n}", "{k62;n}", "{k;n}", "{k61;[]}"];
+    for x in &long { pool.push(x.as_str()); }
+    for a in &pool { for b in &pool { l(format!("ord cmp {} {}", a, b), out); } }
     let tri = if thorough { pool.len() } else { 12 };
     for a in pool.iter().take(tri) { for b in pool.iter().take(tri) { for c in pool.iter().take(tri) { l(format!("ord cmp3 {} {} {}", a, b, c), out); } } }
     out.exhaustive.push(format!("all {}x{} pairs and {}^3 triples of a pool covering every variant, prefixes and near-equal strings/numbers", pool.len(), pool.len(), tri));
